@@ -15,8 +15,8 @@ EXTENDS Integers, Sequences, FiniteSets, TLC, Json, IOUtils
 
 Rec == ndJsonDeserialize(IOEnv.TRACE)
 
-VARIABLES l, h, regs, cand
-vars == <<l, h, regs, cand>>
+VARIABLES l, h, regs, cand, sets, smap
+vars == <<l, h, regs, cand, sets, smap>>
 
 Has(r, f) == f \in DOMAIN r
 (* number of positions of instance i: instances of another parameter class may differ in m (then "ms" is present) *)
@@ -49,7 +49,19 @@ ObsOK(r, st) ==
                  IF st[2][p] = {} THEN r.sig[p] = 0 ELSE r.sig[p] \in st[2][p])
   /\ Has(r, "low") => (r.low >= 0 /\ r.low <= MinOf(st[1]))
 
-TraceInit == l = 2 /\ h = [m |-> 0] /\ regs = <<>> /\ cand = <<>>
+(* Function of the set: where several items attain the join value exactly (cand has more than one element - only    *)
+(* possible when two items get the very same table, i.e. a collision of their hashes) the specification accepts any  *)
+(* of them ONCE; afterwards every instance of the same signature class that holds the same set of items must show    *)
+(* the same stored identities - whatever the order, chunking or merging that built it.  sets[i] = items of instance  *)
+(* i, smap = signature seen for a (class, set).                                                                      *)
+SetRule(r, i, S) ==
+  IF h.sig /\ Has(h, "sc")
+    THEN LET key == <<h.sc[i], S>> IN
+         /\ key \in DOMAIN smap => r.sig = smap[key]
+         /\ smap' = IF key \in DOMAIN smap THEN smap ELSE smap @@ (key :> r.sig)
+    ELSE smap' = smap
+
+TraceInit == l = 2 /\ h = [m |-> 0] /\ regs = <<>> /\ cand = <<>> /\ sets = <<>> /\ smap = <<>>
 
 IsEvent(e) == l <= Len(Rec) /\ Rec[l].op = e /\ l' = l + 1
 
@@ -58,20 +70,24 @@ New == /\ IsEvent("new")
        /\ LET mi(i) == IF Has(Rec[l], "ms") THEN Rec[l].ms[i] ELSE Rec[l].m IN
           /\ regs' = [i \in 1..Rec[l].ninst |-> [p \in 1..mi(i) |-> Rec[l].init]]
           /\ cand' = [i \in 1..Rec[l].ninst |-> [p \in 1..mi(i) |-> {}]]
+          /\ sets' = [i \in 1..Rec[l].ninst |-> {}]
+          /\ smap' = <<>>
 
-Set(i, st) == /\ regs' = [regs EXCEPT ![i] = st[1]]
-              /\ cand' = [cand EXCEPT ![i] = st[2]]
-              /\ UNCHANGED h
+Set(i, st, S) == /\ regs' = [regs EXCEPT ![i] = st[1]]
+                 /\ cand' = [cand EXCEPT ![i] = st[2]]
+                 /\ sets' = [sets EXCEPT ![i] = S]
+                 /\ SetRule(Rec[l], i, S)
+                 /\ UNCHANGED h
 
 Sketch == /\ IsEvent("sk")
           /\ LET r == Rec[l]  i == r.i
                  st == JoinItem(<<regs[i], cand[i]>>, h.tables[h.pc[i]][r.x], r.x)
-             IN r.out = "ok" /\ ObsOK(r, st) /\ Set(i, st)
+             IN r.out = "ok" /\ ObsOK(r, st) /\ Set(i, st, sets[i] \cup {r.x})
 
 Slice == /\ IsEvent("sl")
          /\ LET r == Rec[l]  i == r.i
                 st == JoinSeq(<<regs[i], cand[i]>>, h.pc[i], r.xs)
-            IN r.out = "ok" /\ ObsOK(r, st) /\ Set(i, st)
+            IN r.out = "ok" /\ ObsOK(r, st) /\ Set(i, st, sets[i] \cup {r.xs[k] : k \in 1..Len(r.xs)})
 
 Merge == /\ IsEvent("mg")
          /\ LET r == Rec[l]  i == r.i  j == r.j
@@ -79,14 +95,21 @@ Merge == /\ IsEvent("mg")
                 st == IF allowed THEN JoinInst(<<regs[i], cand[i]>>, <<regs[j], cand[j]>>)
                       ELSE <<regs[i], cand[i]>>        \* a refused merge leaves the receiver unchanged
             IN /\ r.out = (IF allowed THEN "ok" ELSE "refused")
-               /\ ObsOK(r, st) /\ Set(i, st)
+               /\ ObsOK(r, st) /\ Set(i, st, IF allowed THEN sets[i] \cup sets[j] ELSE sets[i])
 
 Reinit == /\ IsEvent("re")
           /\ LET r == Rec[l]  i == r.i
-             IN /\ r.out = "ok" /\ ObsOK(r, Fresh(i)) /\ Set(i, Fresh(i))
+             IN /\ r.out = "ok" /\ ObsOK(r, Fresh(i)) /\ Set(i, Fresh(i), {})
                 /\ Has(r, "low") => (r.low = 0 /\ r.ovf = 0)   \* like a new sketcher
 
-TraceNext == New \/ Sketch \/ Slice \/ Merge \/ Reinit
+(* a NEW sketcher of the class of instance i, fed the items of instance i in the opposite order: same registers, and   *)
+(* (SetRule) the same stored identities as instance i showed                                                          *)
+Twin == /\ IsEvent("tw")
+        /\ LET r == Rec[l]  i == r.i
+           IN /\ r.out = "ok" /\ ObsOK(r, <<regs[i], cand[i]>>) /\ SetRule(r, i, sets[i])
+        /\ UNCHANGED <<h, regs, cand, sets>>
+
+TraceNext == New \/ Sketch \/ Slice \/ Merge \/ Reinit \/ Twin
 TraceSpec == TraceInit /\ [][TraceNext]_vars
 
 TraceAccepted ==
